@@ -826,3 +826,22 @@ Proof.
   apply safe_bind; [apply safe_parse_rrs|]. intros [[r3 t3] o4] _.
   apply safe_ok.
 Qed.
+
+(* ---- negative TTL taken from the SOA record ---- *)
+Lemma neg_ttl_soa default mn sttl soas auth :
+  neg_ttl default ((mn, sttl) :: soas) auth <= mn /\ neg_ttl default ((mn, sttl) :: soas) auth <= sttl.
+Proof. cbn [neg_ttl]. lia. Qed.
+
+Theorem negative_ttl_from_soa : forall default h c rs i t n ty cl v mn sttl soas auth t0 n',
+  c_run default [] h = (c, rs) ->
+  nth_error h i = Some (t, CGet n ty cl) -> nth_error rs i = Some (Some (v, true)) ->
+  (forall t1 n1 ttl1, In (t1, CPutNeg n1 ty cl v ttl1) (firstn i h) ->
+     t1 = t0 /\ n1 = n' /\ ttl1 = neg_ttl default ((mn, sttl) :: soas) auth) ->
+  t < t0 + mn /\ t < t0 + sttl.
+Proof.
+  intros default h c rs i t n ty cl v mn sttl soas auth t0 n' Hrun Hi Hr Hall.
+  destruct (cache_sound default h [] [] rs c (fun e F => match F with end) Hrun i t n ty cl v true Hi Hr)
+    as (t1 & n1 & ttl1 & Hin & _ & _ & Hlt).
+  cbn [app] in Hin. destruct (Hall _ _ _ Hin) as (-> & -> & ->).
+  pose proof (neg_ttl_soa default mn sttl soas auth) as [H1 H2]. lia.
+Qed.
